@@ -3,7 +3,7 @@
     Model: model/Bip276.v; specification of the layout: spec/Bip276Spec.v; proofs: proofs/Bip276Proofs.v. *)
 From Coq Require Import String Ascii List NArith ZArith.
 From Coq Require Import Strings.Byte.
-From GoBT Require Import lib.Bytes lib.Hex lib.Str lib.Sha256 model.Bip276 spec.Bip276Spec proofs.Bip276Proofs.
+From GoBT Require Import lib.Bytes lib.Hex lib.Str lib.Sha256 model.Bip276 spec.Bip276Spec proofs.Bip276Proofs proofs.AuditD17.
 Import ListNotations.
 Local Open Scope string_scope.
 
@@ -102,12 +102,49 @@ Proof. exact decode_ok_iff. Qed.
 Print Assumptions C17_decode_ok_iff.
 
 (** VALIDATION: ValidateAddress accepts a bitcoin-script: string exactly when it decodes
-    (whatever the Base58 branch does) *)
+    (whatever the Base58 branch does).
+    (Holds by unfolding the model: [validate_address_with] is written as this very [if], as is the Go
+    function; that the Go function has this shape is carried by the correspondence.) *)
 Theorem C17_validate_iff_decodes : forall valid_a58 address,
   has_prefix "bitcoin-script:" address = true ->
   (validate_address_with valid_a58 address = true <-> exists s, decode_bip276 address = DOk s).
 Proof. exact validate_iff_decodes_lemma. Qed.
 Print Assumptions C17_validate_iff_decodes.
+
+(** CORRUPTION OF THE CHECKSUM (audit D): any change confined to the last eight characters of a text that
+    decodes - a change of letter case included - is rejected. (A change elsewhere is rejected unless
+    the four checksum bytes collide, which no theorem can exclude.) *)
+Theorem C17_corrupted_checksum_rejected : forall pre c c',
+  String.length c = 8 -> String.length c' = 8 -> c <> c' ->
+  (exists s, decode_bip276 (pre ++ c) = DOk s) -> exists e, decode_bip276 (pre ++ c') = DErr e.
+Proof. exact corrupted_checksum_rejected. Qed.
+Print Assumptions C17_corrupted_checksum_rejected.
+
+(** what a successful decode returns: version and network are bytes - 0 is possible, although
+    EncodeBIP276 refuses to write it - and the prefix is non-empty without a newline *)
+Theorem C17_decode_ranges : forall text s, decode_bip276 text = DOk s ->
+  (0 <= b_version s <= 255)%Z /\ (0 <= b_network s <= 255)%Z /\ b_prefix s <> "" /\ no_newline (b_prefix s) = true.
+Proof. exact decode_ranges. Qed.
+Print Assumptions C17_decode_ranges.
+
+(** a text that decodes and is written the encoder's way (lower-case fields, network first) is
+    reproduced by decode-then-encode *)
+Theorem C17_decode_then_encode : forall text s,
+  decode_bip276 text = DOk s -> (1 <= b_version s <= 255)%Z -> (1 <= b_network s <= 255)%Z ->
+  (forall g2 g3 g4 c, text = b_prefix s ++ ":" ++ g2 ++ g3 ++ g4 ++ c ->
+     String.length g2 = 2 -> String.length g3 = 2 -> String.length c = 8 ->
+     g2 = hex2 (Z.to_N (b_network s)) -> g3 = hex2 (Z.to_N (b_version s)) -> g4 = hex_of (b_data s) ->
+     encode_bip276 s = text).
+Proof. exact decode_then_encode. Qed.
+Print Assumptions C17_decode_then_encode.
+
+(** ValidateAddress looks at the first fifteen characters only: what decodes may carry any longer
+    prefix, and version / network 0 *)
+Example C17_validate_accepts_other_prefix :
+  let t := encode_bip276 (mkBip276 "bitcoin-script:anything" 1 1 []) in
+  validate_address_with (fun _ => false) t = true /\
+  decode_bip276 t = DOk (mkBip276 "bitcoin-script:anything" 1 1 []).
+Proof. vm_compute. split; reflexivity. Qed.
 
 (** non-vacuity: the two prefixes of the property meet the hypotheses; a concrete round trip; a
     prefix with colons round-trips too; a newline in the prefix really breaks the round trip *)
